@@ -130,6 +130,8 @@ def run_history(steps):
     for st_ in steps:
         if st_[0] == "dialog" and st_[4] and (st_[1] % 2,) not in _dialog_baseline:
             run_history([["dialog", st_[1], st_[2], st_[3], []]])
+        if st_[0] == "segreq" and st_[4] is not None and ("segreq", st_[1] % 2) not in _dialog_baseline:
+            run_history([["segreq", st_[1], st_[2], st_[3], None]])
     lab = StackLab()
     boot.swallowed.take()
     dev = lab.add_stack(2, DeviceApp, segmentation="segmentedBoth", max_apdu=1024, max_segs=16, retries=1, apdu_timeout=1000, seg_timeout=500, app_timeout=3000)
@@ -250,6 +252,72 @@ def run_history(steps):
                                       % (inv, aborted, len(got), strays)))
                     elif content != base[1]:
                         fails.append(("dialog:segmented-answer-content-changed", "invoke %d: %d octets instead of %d" % (inv, len(content), len(base[1]))))
+            elif st_[0] == "segreq":
+                # a requester that sends its request in segments, properly, and once has a sequence number corrupted on the way: it is told so by a
+                # negative ack, resumes where it is told to, and must get the same answer as for the request sent in one piece
+                _, si, inv, win, glitch_at = st_
+                stats["segreqs"] = stats.get("segreqs", 0) + 1
+                name, svc, body, expect = seeds()[6 + si % 2]
+                chunks = [body[i_:i_ + 14] for i_ in range(0, len(body), 14)]
+                nseg = len(chunks)
+
+                def segf(seq, data=None):
+                    apdu = RA.encode(dict(type=RA.CONF, seg=True, mor=seq < nseg - 1, sa=False, maxsegs=0, maxresp=5, invoke=inv, service=svc,
+                                          data=chunks[seq] if data is None else data, seq=seq % 256, win=win))
+                    return RN.encode(dict(msg=None, dadr=None, sadr=None, er=True, prio=0, hop=None, data=apdu))
+                c = classify(segf(0))
+                c.update(via=99, client=(99, None), t=lab.now, idx=len(att.seen), frame=segf(0).hex(), segdialog=True)
+                used.add((c["client"], inv))
+                owed.append(c)
+                stats["well_framed"] += 1
+                pos = len(att.seen)
+                lab.inject(99, 2, segf(0))
+                lab.settle()
+                nxt, aw, glitched, reply = 1, 1, False, None
+                for rnd in range(60):
+                    ack = None
+                    for (t, src, dst, data) in att.seen[pos:]:
+                        if src is None or src.addrAddr != b"\x02" or dst is None or dst.addrAddr != bytes([99]):
+                            continue
+                        try:
+                            a = RA.decode(RN.decode(data)["data"])
+                        except Exception:
+                            continue
+                        if a.get("invoke") != inv:
+                            continue
+                        if a["type"] == 4:
+                            ack = a
+                        elif a["type"] in (2, 3, 5, 6, 7):
+                            reply = (a["type"], a.get("service"), a.get("reason"), bytes(a.get("data", b"")))
+                    pos = len(att.seen)
+                    if reply is not None:
+                        break
+                    if ack is not None:
+                        nxt = ack["seq"] + 1
+                        aw = max(1, min(ack["win"], win))
+                    elif rnd > 0:
+                        lab.run(lab.now + 0.6)
+                        VC.clk.now = max(VC.clk.now, lab.now)
+                        if rnd > 12:
+                            break
+                    sent = 0
+                    while nxt < nseg and sent < aw:
+                        lab.inject(99, 2, segf(nxt))
+                        sent += 1
+                        if glitch_at is not None and nxt == glitch_at and not glitched and nxt + 1 < nseg:
+                            glitched = True
+                            stats["injected"] += 1
+                            lab.inject(99, 2, segf((nxt + 3) % 256, chunks[nxt + 1]))        # the next segment, its sequence number damaged
+                            break
+                        nxt += 1
+                    lab.settle()
+                base = _dialog_baseline.get(("segreq", si % 2))
+                if glitch_at is None:
+                    _dialog_baseline[("segreq", si % 2)] = reply
+                elif base is not None and reply != base:
+                    fails.append(("segmented-request:damaged-sequence-number:%s" % ("no-answer" if reply is None else "other-answer"),
+                                  "a request of %d segments (window %d) whose segment after %d arrived with a damaged sequence number, resumed as the negative ack said, was answered %r; sent properly it is answered %r"
+                                  % (nseg, win, glitch_at, reply and reply[:3], base and base[:3])))
             elif st_[0] == "adv":
                 lab.run(lab.now + float(st_[1]))
                 VC.clk.now = max(VC.clk.now, lab.now)
@@ -706,6 +774,9 @@ def run(spec, ctx):
         ctx.for_all(strat, spec["n"])
         strat = st.tuples(st.lists(step, max_size=2), dialog, st.lists(step, max_size=2)).map(lambda t: dict(k="h", steps=t[0] + [t[1]] + t[2]))
         ctx.for_all(strat, max(50, spec["n"] // 5), salt=5)
+        segreq = st.tuples(st.just("segreq"), st.integers(0, 1), st.just(110), st.sampled_from([1, 2, 3, 4, 8]), st.one_of(st.none(), st.integers(1, 6))).map(list)
+        strat = st.tuples(st.lists(step, max_size=2), segreq, st.lists(step, max_size=2)).map(lambda t: dict(k="h", steps=t[0] + [t[1]] + t[2]))
+        ctx.for_all(strat, max(50, spec["n"] // 5), salt=6)
     elif kind == "iam":
         # the requester has announced itself (I-Am with every segmentation support x max-APDU), then asks with and without the
         # segmented-response-accepted bit, for every kind of answer; a second I-Am may arrive between the requests
